@@ -584,6 +584,95 @@ def r10g(rep, F):
                 'cannot find an element that has a coincident duplicate')
 
 
+def r10h(rep, F):
+    rep.rule('R10h', 'pointers into leaf storage stay valid while removals are pending (the removed_ cache stores addresses of data_ '
+                     'elements): needToSplit lets a leaf grow until its size exceeds every bound B_i of its conjunction sz > B_1 && sz > '
+                     'B_2 ..., so a leaf may hold max(B_i) + 1 elements; the storage reserved for data_ in the Node constructor, and '
+                     'again in split() after a child\'s degree_ is re-assigned, is max over the same bounds, plus one (the constructor '
+                     'sees maxNumPtsPerLeaf_ as its parameter `capacity`).  A smaller reservation lets std::vector reallocate and a '
+                     'removed element reappears')
+    for cls, targ in VARIANTS:
+        nts = pick(F, cls + '::Node::needToSplit', targ)[0]
+        rets = [r for r in nts.walk() if r['k'] == 'ReturnStmt' and r['ch']]
+        bounds = set()
+        ok_shape = len(rets) == 1
+        if ok_shape:
+            def conj(nid):
+                n = nts.strip(nid)
+                if n['k'] == 'BinaryOperator' and n.get('op') == '&&':
+                    return conj(n['ch'][0]) + conj(n['ch'][1])
+                return [n]
+            for a in conj(rets[0]['ch'][0]):
+                if a['k'] == 'BinaryOperator' and a.get('op') == '>':
+                    bounds.add(re.sub(r'#\d+', '', nts.fp(a['ch'][1])).split('.')[-1])
+                else:
+                    ok_shape = False
+        if not ok_shape or not bounds:
+            raise AnalysisBroken('R10h: needToSplit is not a conjunction of sz > bound tests')
+
+        def covers(f, call, who):
+            fp = re.sub(r'#\d+', '', f.fp(args(f, call)[0])) if args(f, call) else ''
+            names = {b.replace('maxNumPtsPerLeaf_', 'capacity') if who == 'ctor' else b for b in bounds}
+            inner = re.findall(r'[\w.]+', fp)
+            have = {x.split('.')[-1] for x in inner}
+            plus1 = fp.rstrip(')').endswith('+ 1') or '+ 1)' in fp
+            return ('std::max(' in fp or len(names) == 1) and names <= have and plus1, fp
+        ctor = pick(F, cls + '::Node::Node', targ)[0]
+        rs = [c for c in ctor.walk() if (c.get('callee') or '').endswith('::reserve') and 'data_' in ctor.fp(c['ch'][0])]
+        ok, fp = covers(ctor, rs[0], 'ctor') if rs else (False, 'no reservation')
+        rep.add('R10h', label(ctor), 'leaf-storage-covers-split-threshold', ok, ctor.where(rs[0]) if rs else ctor.loc,
+                'reserves %s; a leaf splits beyond max(%s)' % (fp, ', '.join(sorted(bounds))) if ok else
+                'the leaf reserves %s but needToSplit lets it grow to max(%s) + 1 elements: pointers kept in removed_ dangle after the '
+                'reallocation' % (fp, ', '.join(sorted(bounds))))
+        sp = pick(F, cls + '::Node::split', targ)[0]
+        reas = [x for x in sp.walk() if x['k'] == 'BinaryOperator' and x.get('op') == '=' and re.sub(r'#\d+', '', sp.fp(x['ch'][0])).endswith('.degree_')
+                and not re.sub(r'#\d+', '', sp.fp(x['ch'][0])).startswith('this.')]
+        for x in reas:
+            base = re.sub(r'#\d+', '', sp.fp(x['ch'][0])).rsplit('.', 1)[0]
+            rs = [c for c in sp.walk() if (c.get('callee') or '').endswith('::reserve') and re.sub(r'#\d+', '', sp.fp(c['ch'][0])) == base + '.data_'
+                  and sp.line(c) >= sp.line(x)]
+            ok, fp = covers(sp, rs[0], 'split') if rs else (False, 'nothing')
+            rep.add('R10h', label(sp), 'child-storage-follows-degree', ok, sp.where(x),
+                    'after %s.degree_ is re-assigned the child reserves %s' % (base, fp) if ok else
+                    '%s.degree_ is re-assigned in split() and the child reserves %s afterwards: its leaf may outgrow the storage reserved '
+                    'with the old degree' % (base, fp))
+        if not reas:
+            raise AnalysisBroken('R10h: split() no longer re-assigns the degree of its children')
+
+
+def r10i(rep, F):
+    rep.rule('R10i', 'split() conserves the multiset: every element data_[j] of the node being split is pushed into exactly one child, except '
+                     'the elements that became pivots, and those are recognised by POSITION (the loop index j compared with the index '
+                     'pivots[k] returned by the k-centers selection), never by value -- equal values may be stored several times and only '
+                     'the copy at the pivot index lives on as the child\'s pivot_')
+    for cls, targ in VARIANTS:
+        sp = pick(F, cls + '::Node::split', targ)[0]
+        pushes = [c for c in sp.walk() if (c.get('callee') or '').endswith('::push_back') and re.sub(r'#\d+', '', sp.fp(c['ch'][0])).endswith('.data_')]
+        if len(pushes) != 1:
+            raise AnalysisBroken('R10i: split() does not have exactly one hand-over of an element to a child')
+        g = guards_of(sp, pushes[0]['id'])
+        ok = False
+        why = 'the hand-over is not guarded by a pivot test'
+        if len(g) == 1 and g[0][1]:
+            cond = sp.strip(g[0][0])
+            if cond['k'] == 'BinaryOperator' and cond.get('op') == '!=':
+                l, r = sp.strip(cond['ch'][0]), sp.strip(cond['ch'][1])
+                lf, rf = re.sub(r'#\d+', '', sp.fp(l['id'])), re.sub(r'#\d+', '', sp.fp(r['id']))
+                idx = [x for x in (l, r) if x['k'] == 'DeclRefExpr' and x.get('dk') == 'Local']
+                piv = [x for x in (lf, rf) if re.match(r'^std::vector::operator\[\]\(pivots,\w+\)$', x)]
+                pushed = sp.strip(args(sp, pushes[0])[0])
+                pidx = re.sub(r'#\d+', '', sp.fp(pushed['ch'][-1])) if pushed is not None and pushed.get('oop') == '[]' else None
+                if idx and piv and pidx == idx[0].get('name'):
+                    ok = True
+                    why = 'data_[%s] is handed over unless %s is the pivot index %s' % (pidx, pidx, piv[0])
+                else:
+                    why = 'the pivot test compares %s with %s: an element is skipped because it EQUALS a pivot, so further stored copies of ' \
+                          'that value vanish from the tree while size_ still counts them' % (lf, rf)
+        elif len(g) != 1:
+            why = 'the hand-over is guarded by %d conditions, not by the single pivot-index test' % len(g)
+        rep.add('R10i', label(sp), 'pivot-skipped-by-index', ok, sp.where(pushes[0]), why)
+
+
 def run(rep):
     F = facts.load_units(INST)
     rep.units.update(INST)
@@ -591,6 +680,8 @@ def run(rep):
     r10a(rep, F)
     r10b(rep, F)
     r10c(rep, F)
+    r10h(rep, F)
+    r10i(rep, F)
     r10d(rep, F)
     r10e(rep, F)
     r10f(rep, F)
